@@ -152,6 +152,7 @@ func vfGateSpecAllowed(gs []vfGateGrant, topic, channel string) bool {
 
 type vfGateSeen struct {
 	TLS, CN, Secret, IP string
+	Method              string
 }
 
 type vfGateStub struct {
@@ -166,7 +167,7 @@ func vfGateNewStub() *vfGateStub {
 	s.srv = httptest.NewUnstartedServer(http.HandlerFunc(func(w http.ResponseWriter, r *http.Request) {
 		r.ParseForm()
 		s.mu.Lock()
-		s.seen = append(s.seen, vfGateSeen{r.Form.Get("tls"), r.Form.Get("common_name"), r.Form.Get("secret"), r.Form.Get("remote_ip")})
+		s.seen = append(s.seen, vfGateSeen{r.Form.Get("tls"), r.Form.Get("common_name"), r.Form.Get("secret"), r.Form.Get("remote_ip"), r.Method})
 		a := s.ans
 		s.mu.Unlock()
 		switch a.Err {
@@ -707,6 +708,7 @@ func (c *vfGateConn) run(k vfGateCmd, ans vfGateAns, last bool) (op string, impl
 		c.client.AuthState.Expires = time.Now().Add(time.Duration(c.expV-c.vnow) * time.Hour)
 	}
 	before := vfGateSnap(in.nsqd)
+	wall0 := time.Now()
 	verb := "c"
 	if last {
 		verb = "cx"
@@ -838,8 +840,32 @@ func (c *vfGateConn) run(k vfGateCmd, ans vfGateAns, last bool) (op string, impl
 		}
 	}
 	after := vfGateSnap(in.nsqd)
+	wall1 := time.Now()
 	seen := in.stub.Seen()
 	impl = c.implLine(replies, closed, seen, after)
+	// audit B11: the expiry the code really stored (the virtual clock above overwrites it before every command, so
+	// without this nothing observes `Expires = now + ttl seconds`), and the parts of the request nobody compared
+	if len(seen) > 0 && ans.Valid() && !closed {
+		if as := c.client.AuthState; as == nil {
+			in.out.Fail("ttl-expiry:"+k.Name, fmt.Sprintf("a valid auth answer (ttl %d) was served but the connection holds no authorization state [%s]", ans.TTL, op))
+		} else {
+			lo, hi := wall0.Add(time.Duration(ans.TTL)*time.Second), wall1.Add(time.Duration(ans.TTL)*time.Second)
+			if as.Expires.Before(lo) || as.Expires.After(hi) {
+				in.out.Fail("ttl-expiry:"+k.Name, fmt.Sprintf("auth answer with ttl %d s obtained between %s and %s is stored as expiring at %s (%.0f s after the query): not query time + ttl [%s]",
+					ans.TTL, wall0.Format("15:04:05.000"), wall1.Format("15:04:05.000"), as.Expires.Format("2006-01-02 15:04:05.000"), as.Expires.Sub(wall0).Seconds(), op))
+			} else {
+				in.out.hist["oracle:ttl-expiry-checked"]++
+			}
+		}
+	}
+	for _, s := range seen {
+		if host, _, err := net.SplitHostPort(c.raw.LocalAddr().String()); err == nil && s.IP != host {
+			in.out.Fail("query-ip:"+k.Name, fmt.Sprintf("auth server was told remote_ip=%q, the client connected from %q [%s]", s.IP, host, op))
+		}
+		if s.Method != "GET" {
+			in.out.Fail("query-method:"+k.Name, fmt.Sprintf("auth server was asked with HTTP method %s, --auth-http-request-method is the default (get) [%s]", s.Method, op))
+		}
+	}
 
 	// ------------------------------------------------ direct oracle (the property on the implementation's own outputs)
 	o := in.out
